@@ -18,146 +18,55 @@ Import ListNotations.
 Local Open Scope string_scope.
 Local Open Scope list_scope.
 
-(** ** the phase discipline, read off the trace: no push is pending while a pop is pending and vice versa *)
+(** ** the two-phase discipline, read off the trace *)
 Record scan := mkS { pp : list nat;      (* threads with a pending push *)
-                     qq : list nat;      (* threads with a pending pop *)
+                     seen : bool;        (* a pop has been invoked *)
                      bad : bool }.       (* the discipline was broken *)
-Definition del (t : nat) (l : list nat) : list nat := filter (fun u => negb (Nat.eqb u t)) l.
-Definition ne (l : list nat) : bool := match l with [] => false | _ => true end.
 Definition scan_step (s : scan) (te : nat * ev) : scan :=
   match snd te with
   | EvCli n _ =>
-      if String.eqb n "inv_push" then mkS (fst te :: pp s) (qq s) (bad s || ne (qq s))
-      else if String.eqb n "ret_push" then mkS (del (fst te) (pp s)) (qq s) (bad s)
-      else if String.eqb n "inv_pop" then mkS (pp s) (fst te :: qq s) (bad s || ne (pp s))
-      else if String.eqb n "ret_pop" then mkS (pp s) (del (fst te) (qq s)) (bad s)
+      if String.eqb n "inv_push" then mkS (fst te :: pp s) (seen s) (bad s || seen s)
+      else if String.eqb n "ret_push" then mkS (filter (fun u => negb (Nat.eqb u (fst te))) (pp s)) (seen s) (bad s)
+      else if String.eqb n "inv_pop" then mkS (pp s) true (bad s || match pp s with [] => false | _ => true end)
       else s
   | _ => s
   end.
-Definition scan_of (tr : list (nat * ev)) : scan := fold_left scan_step tr (mkS [] [] false).
+Definition scan_of (tr : list (nat * ev)) : scan := fold_left scan_step tr (mkS [] false false).
 Lemma scan_app tr tr' : scan_of (tr ++ tr') = fold_left scan_step tr' (scan_of tr).
 Proof. apply fold_left_app. Qed.
-
-Definition phased (tr : list (nat * ev)) : bool := negb (bad (scan_of tr)).
-(** the claims about push phases / pop phases are suspended *)
-Definition dq (tr : list (nat * ev)) : bool := bad (scan_of tr) || ne (qq (scan_of tr)).
-Definition dp (tr : list (nat * ev)) : bool := bad (scan_of tr) || ne (pp (scan_of tr)).
-
-Lemma in_del t l u : In u (del t l) <-> u <> t /\ In u l.
-Proof. unfold del. rewrite filter_In, negb_true_iff, Nat.eqb_neq. tauto. Qed.
-Lemma ne_in l u : In u l -> ne l = true.
-Proof. destruct l; [intros []|reflexivity]. Qed.
 
 (** events that the scan ignores *)
 Definition sn (e : ev) : bool :=
   match e with
   | EvAcc _ _ _ => true
-  | EvCli n _ => negb (String.eqb n "inv_push" || String.eqb n "ret_push" || String.eqb n "inv_pop" || String.eqb n "ret_pop")
+  | EvCli n _ => negb (String.eqb n "inv_push" || String.eqb n "ret_push" || String.eqb n "inv_pop")
   end.
 Lemma scan_neutral t es s : forallb sn es = true -> fold_left scan_step (Conc.tag t es) s = s.
 Proof.
   revert s. induction es as [|e es IH]; intros s; cbn [forallb]; [reflexivity|]. rewrite andb_true_iff. intros [He Hes].
   unfold Conc.tag in *. cbn [map fold_left]. rewrite IH by exact Hes. unfold scan_step. cbn [snd].
   destruct e as [| n args]; [reflexivity|]. cbn in He. rewrite negb_true_iff, !orb_false_iff in He.
-  destruct He as [[[H1 H2] H3] H4]. rewrite H1, H2, H3, H4. reflexivity.
+  destruct He as [[H1 H2] H3]. rewrite H1, H2, H3. reflexivity.
 Qed.
 Lemma scan_neutral_app tr t es : forallb sn es = true -> scan_of (tr ++ Conc.tag t es) = scan_of tr.
 Proof. intros H. rewrite scan_app. apply scan_neutral. exact H. Qed.
-Lemma scan_snoc tr t e : scan_of (tr ++ Conc.tag t [e]) = scan_step (scan_of tr) (t, e).
-Proof. rewrite scan_app. reflexivity. Qed.
 
-(** events of a push leave the pending pops and [dq] alone; events of a pop leave the pending pushes and [dp] alone *)
-Definition popev (e : ev) : bool :=
-  match e with
-  | EvAcc _ _ _ => true
-  | EvCli n _ => negb (String.eqb n "inv_push" || String.eqb n "ret_push")
-  end.
-Lemma pushev_step s t e : pushev e = true ->
-  qq (scan_step s (t, e)) = qq s /\ (bad (scan_step s (t, e)) || ne (qq s)) = (bad s || ne (qq s)).
+Lemma bad_mono tr tr' : bad (scan_of tr) = true -> bad (scan_of (tr ++ tr')) = true.
 Proof.
-  unfold scan_step. cbn [snd fst]. destruct e as [| n args]; [auto|]. cbn. rewrite negb_true_iff, orb_false_iff. intros [H1 H2]. rewrite H1, H2.
-  destruct (String.eqb n "inv_push"); [cbn; split; [reflexivity|]; destruct (bad s), (ne (qq s)); reflexivity|].
-  destruct (String.eqb n "ret_push"); auto.
+  intros H. rewrite scan_app. revert H. generalize (scan_of tr). induction tr' as [|te tr' IH]; intros s H; [exact H|].
+  cbn [fold_left]. apply IH. unfold scan_step. destruct (snd te) as [| n args]; [exact H|].
+  destruct (String.eqb n "inv_push"); [cbn; rewrite H; reflexivity|].
+  destruct (String.eqb n "ret_push"); [exact H|]. destruct (String.eqb n "inv_pop"); [cbn; rewrite H; reflexivity|exact H].
 Qed.
-Lemma pushev_scan t es : forall s, forallb pushev es = true ->
-  qq (fold_left scan_step (Conc.tag t es) s) = qq s /\ (bad (fold_left scan_step (Conc.tag t es) s) || ne (qq s)) = (bad s || ne (qq s)).
+Lemma seen_mono tr tr' : seen (scan_of tr) = true -> seen (scan_of (tr ++ tr')) = true.
 Proof.
-  induction es as [|e es IH]; intros s; cbn [forallb]; [auto|]. rewrite andb_true_iff. intros [He Hes].
-  unfold Conc.tag in *. cbn [map fold_left]. destruct (pushev_step s t e He) as [Q1 Q2]. destruct (IH (scan_step s (t, e)) Hes) as [R1 R2].
-  rewrite Q1 in R1, R2. split; [exact R1|]. rewrite R2. exact Q2.
-Qed.
-Lemma dq_pushev tr t es : forallb pushev es = true -> dq (tr ++ Conc.tag t es) = dq tr.
-Proof. intros H. unfold dq. rewrite scan_app. destruct (pushev_scan t es (scan_of tr) H) as [Q1 Q2]. rewrite Q1. exact Q2. Qed.
-Lemma qq_pushev tr t es : forallb pushev es = true -> qq (scan_of (tr ++ Conc.tag t es)) = qq (scan_of tr).
-Proof. intros H. rewrite scan_app. apply (pushev_scan t es (scan_of tr) H). Qed.
-
-Lemma popev_step s t e : popev e = true ->
-  pp (scan_step s (t, e)) = pp s /\ (bad (scan_step s (t, e)) || ne (pp s)) = (bad s || ne (pp s)).
-Proof.
-  unfold scan_step. cbn [snd fst]. destruct e as [| n args]; [auto|]. cbn. rewrite negb_true_iff, orb_false_iff. intros [H1 H2]. rewrite H1, H2.
-  destruct (String.eqb n "inv_pop"); [cbn; split; [reflexivity|]; destruct (bad s), (ne (pp s)); reflexivity|].
-  destruct (String.eqb n "ret_pop"); auto.
-Qed.
-Lemma popev_scan t es : forall s, forallb popev es = true ->
-  pp (fold_left scan_step (Conc.tag t es) s) = pp s /\ (bad (fold_left scan_step (Conc.tag t es) s) || ne (pp s)) = (bad s || ne (pp s)).
-Proof.
-  induction es as [|e es IH]; intros s; cbn [forallb]; [auto|]. rewrite andb_true_iff. intros [He Hes].
-  unfold Conc.tag in *. cbn [map fold_left]. destruct (popev_step s t e He) as [Q1 Q2]. destruct (IH (scan_step s (t, e)) Hes) as [R1 R2].
-  rewrite Q1 in R1, R2. split; [exact R1|]. rewrite R2. exact Q2.
-Qed.
-Lemma dp_popev tr t es : forallb popev es = true -> dp (tr ++ Conc.tag t es) = dp tr.
-Proof. intros H. unfold dp. rewrite scan_app. destruct (popev_scan t es (scan_of tr) H) as [Q1 Q2]. rewrite Q1. exact Q2. Qed.
-Lemma pp_popev tr t es : forallb popev es = true -> pp (scan_of (tr ++ Conc.tag t es)) = pp (scan_of tr).
-Proof. intros H. rewrite scan_app. apply (popev_scan t es (scan_of tr) H). Qed.
-
-(** as long as the discipline holds, pushes and pops are not pending together *)
-Lemma scan_excl tr : bad (scan_of tr) = false -> pp (scan_of tr) = [] \/ qq (scan_of tr) = [].
-Proof.
-  induction tr as [|e tr IH] using rev_ind; [left; reflexivity|]. rewrite scan_app. cbn [fold_left]. set (s := scan_of tr) in *.
-  unfold scan_step. destruct (snd e) as [| n args]; [exact IH|].
-  destruct (String.eqb n "inv_push"); [cbn; intros H; apply orb_false_iff in H; destruct H as [_ H]; right; destruct (qq s); [reflexivity|discriminate]|].
-  destruct (String.eqb n "ret_push"); [cbn; intros H; destruct (IH H) as [E|E]; [left; rewrite E; reflexivity|right; exact E]|].
-  destruct (String.eqb n "inv_pop"); [cbn; intros H; apply orb_false_iff in H; destruct H as [_ H]; left; destruct (pp s); [reflexivity|discriminate]|].
-  destruct (String.eqb n "ret_pop"); [cbn; intros H; destruct (IH H) as [E|E]; [left; exact E|right; rewrite E; reflexivity]|exact IH].
+  intros H. rewrite scan_app. revert H. generalize (scan_of tr). induction tr' as [|te tr' IH]; intros s H; [exact H|].
+  cbn [fold_left]. apply IH. unfold scan_step. destruct (snd te) as [| n args]; [exact H|].
+  destruct (String.eqb n "inv_push"); [exact H|].
+  destruct (String.eqb n "ret_push"); [exact H|]. destruct (String.eqb n "inv_pop"); [reflexivity|exact H].
 Qed.
 
-(** no pop invoked so far: a (first) push phase *)
-Lemma no_pop_scan tr : pop_invoked tr = false -> bad (scan_of tr) = false /\ qq (scan_of tr) = [].
-Proof.
-  induction tr as [|e tr IH] using rev_ind; [auto|]. rewrite pop_invoked_app, scan_app. cbn [fold_left pop_invoked existsb].
-  rewrite orb_false_r. intros H. apply orb_false_iff in H. destruct H as [H1 H2]. destruct (IH H1) as [B Q]. set (s := scan_of tr) in *.
-  unfold scan_step. unfold is_cli in H2. destruct (snd e) as [| n args]; [auto|].
-  destruct (String.eqb n "inv_push"); [cbn; rewrite B, Q; auto|]. destruct (String.eqb n "ret_push"); [cbn; auto|].
-  rewrite H2. destruct (String.eqb n "ret_pop"); [cbn; rewrite Q; auto|auto].
-Qed.
-
-(** two phases: a push phase followed by a pop phase (no push invoked after the first pop) *)
-Record scan2 := mkS2 { pp2 : list nat; seen2 : bool; bad2 : bool }.
-Definition scan2_step (s : scan2) (te : nat * ev) : scan2 :=
-  match snd te with
-  | EvCli n _ =>
-      if String.eqb n "inv_push" then mkS2 (fst te :: pp2 s) (seen2 s) (bad2 s || seen2 s)
-      else if String.eqb n "ret_push" then mkS2 (del (fst te) (pp2 s)) (seen2 s) (bad2 s)
-      else if String.eqb n "inv_pop" then mkS2 (pp2 s) true (bad2 s || ne (pp2 s))
-      else s
-  | _ => s
-  end.
-Definition scan2_of (tr : list (nat * ev)) : scan2 := fold_left scan2_step tr (mkS2 [] false false).
-Definition twophase (tr : list (nat * ev)) : bool := negb (bad2 (scan2_of tr)).
-Lemma twophase_phased tr : twophase tr = true -> phased tr = true.
-Proof.
-  unfold twophase, phased. rewrite !negb_true_iff.
-  assert (H : bad2 (scan2_of tr) = false -> bad (scan_of tr) = false /\ pp (scan_of tr) = pp2 (scan2_of tr) /\ (seen2 (scan2_of tr) = false -> qq (scan_of tr) = [])); [|tauto].
-  induction tr as [|e tr IH] using rev_ind; [auto|]. unfold scan2_of, scan_of in *. rewrite !fold_left_app. cbn [fold_left].
-  set (s := fold_left scan_step tr _) in *. set (s2 := fold_left scan2_step tr _) in *.
-  unfold scan2_step, scan_step. destruct (snd e) as [| n args]; [exact IH|].
-  destruct (String.eqb n "inv_push").
-  { cbn. intros H. apply orb_false_iff in H. destruct H as [H1 H2]. destruct (IH H1) as (A & B & C). rewrite A, B, (C H2). auto. }
-  destruct (String.eqb n "ret_push"); [cbn; intros H; destruct (IH H) as (A & B & C); rewrite B; auto|].
-  destruct (String.eqb n "inv_pop").
-  { cbn. intros H. apply orb_false_iff in H. destruct H as [H1 H2]. destruct (IH H1) as (A & B & C). rewrite A, B, H2. split; [reflexivity|]. split; [reflexivity|discriminate]. }
-  destruct (String.eqb n "ret_pop"); [cbn; intros H; destruct (IH H) as (A & B & C); split; [exact A|]; split; [exact B|]; intros K; rewrite (C K); reflexivity|exact IH].
-Qed.
+Definition twophase (tr : list (nat * ev)) : bool := negb (bad (scan_of tr)).
 
 (** ** the third auxiliary component *)
 (** [Owing]: linearized (dec() done under the size lock), the top item not yet taken *)
@@ -225,7 +134,7 @@ Record PopFacts (g : G) (a1 : Aux) (a3 : Aux3) : Prop := mkPF {
   k7 : forall t p ch, pdirty (a3 t) = Some p -> pch (a3 t) = Some ch ->
          In (2 * p) (plk (a3 t)) /\ In (S (2 * p)) (plk (a3 t)) /\ IsMaxG g p ch;
   k8 : forall t, pin (a3 t) = true -> inop (tvs a1 t) = true;
-  k9 : forall t, pin (a3 t) = false -> plk (a3 t) = [] /\ pdirty (a3 t) = None /\ pclear (tvs a1 t) = None /\ hs (tvs a1 t) = false }.
+  k9 : forall t, pin (a3 t) = false -> plk (a3 t) = [] /\ pdirty (a3 t) = None /\ pclear (tvs a1 t) = None }.
 
 (** steps that leave the cells alone *)
 Lemma PF_gen g g' a1 a1' a3 t v' :
@@ -233,7 +142,7 @@ Lemma PF_gen g g' a1 a1' a3 t v' :
   (forall i, cellv g' i = cellv g i) -> (forall i, cellt g' i = cellt g i) ->
   (forall u, u <> t -> tvs a1' u = tvs a1 u) -> pstore (tvs a1' t) = None ->
   (pin v' = true -> inop (tvs a1' t) = true) ->
-  (pin v' = false -> plk v' = [] /\ pdirty v' = None /\ pclear (tvs a1' t) = None /\ hs (tvs a1' t) = false) ->
+  (pin v' = false -> plk v' = [] /\ pdirty v' = None /\ pclear (tvs a1' t) = None) ->
   (forall l, In l (plk v') -> l <> 0 /\ nlock (heap g' l) = true /\ forall u, u <> t -> ~ In l (plk (a3 u))) ->
   (forall u l, u <> t -> In l (plk (a3 u)) -> nlock (heap g' l) = true) ->
   pdirty v' = pdirty (a3 t) -> (forall d, pdirty v' = Some d -> In d (plk v')) ->
@@ -307,7 +216,7 @@ Qed.
 Lemma PF_io g a1 a1' a3 t v' :
   PopFacts g a1 a3 -> plk (a3 t) = [] -> pdirty (a3 t) = None -> plk v' = [] -> pdirty v' = None ->
   (forall u, u <> t -> tvs a1' u = tvs a1 u) -> pstore (tvs a1' t) = None ->
-  (pin v' = true -> inop (tvs a1' t) = true) -> (pin v' = false -> pclear (tvs a1' t) = None /\ hs (tvs a1' t) = false) ->
+  (pin v' = true -> inop (tvs a1' t) = true) -> (pin v' = false -> pclear (tvs a1' t) = None) ->
   PopFacts g a1' (upd3 a3 t v').
 Proof.
   intros F H1 H2 H3 H4 Hoth Hps Hin Hout. pose proof F as [K1 K2 K3 K4 K5 K6 K7 K8 K9].
@@ -317,7 +226,7 @@ Proof.
   - exact Hoth.
   - exact Hps.
   - exact Hin.
-  - intros E. destruct (Hout E). auto.
+  - intros E. auto.
   - intros l Hl. rewrite H3 in Hl. destruct Hl.
   - intros u l _ Hl. apply (K1 u l Hl).
   - congruence.
@@ -538,6 +447,15 @@ Proof.
     rewrite upd3_other in * by exact N. apply (K7 u p' ch' Hu Hc).
   - intros u Hu. destruct (Nat.eq_dec u t) as [->|N]; [apply K8; exact Hp|]. rewrite upd3_other in Hu by exact N. apply K8. exact Hu.
   - intros u Hu. destruct (Nat.eq_dec u t) as [->|N]; [rewrite upd3_same in Hu; discriminate|]. rewrite upd3_other in * by exact N. apply K9. exact Hu.
+Qed.
+
+Lemma seen_pop_invoked tr : seen (scan_of tr) = pop_invoked tr.
+Proof.
+  induction tr as [|e tr IH] using rev_ind; [reflexivity|]. rewrite scan_app, pop_invoked_app. cbn [fold_left pop_invoked existsb].
+  rewrite <- IH, orb_false_r. unfold scan_step. destruct (snd e) as [| n args]; cbn [is_cli]; [rewrite orb_false_r; reflexivity|].
+  destruct (String.eqb_spec n "inv_push") as [->|N1]; [cbn; rewrite orb_false_r; reflexivity|].
+  destruct (String.eqb_spec n "ret_push") as [->|N2]; [cbn; rewrite orb_false_r; reflexivity|].
+  destruct (String.eqb_spec n "inv_pop") as [->|N3]; [cbn; rewrite orb_true_r; reflexivity|]. rewrite orb_false_r. reflexivity.
 Qed.
 
 Section Pop.
@@ -971,40 +889,19 @@ Section Pop.
   Qed.
 
   (** *** the third component of the invariant *)
-  (** the phase discipline of MsPqPush instantiated *)
-  Definition Pq (tr : list (nat * ev)) (t : nat) : Prop := In t (qq (scan_of tr)).
-  Lemma HDq : forall tr t es, forallb pushev es = true -> dq (tr ++ Conc.tag t es) = dq tr.
-  Proof. exact dq_pushev. Qed.
-  Lemma HPq : forall tr t es u, forallb pushev es = true -> Pq tr u -> Pq (tr ++ Conc.tag t es) u.
-  Proof. intros tr t es u H. unfold Pq. rewrite (qq_pushev tr t es H). auto. Qed.
-  Lemma HPDq : forall tr u, Pq tr u -> dq tr = true.
-  Proof. intros tr u H. unfold dq. rewrite (ne_in _ _ H). apply orb_true_r. Qed.
-  Notation Ext := (MsPqPush.Ext dq Pq).
-  Notation JInv := (MsPqPush.JInv cap dq Pq).
-
-  Lemma sn_pushev es : forallb sn es = true -> forallb pushev es = true.
-  Proof.
-    induction es as [|e es IH]; cbn [forallb]; [auto|]. rewrite !andb_true_iff. intros [He Hes]. split; [|apply IH; exact Hes].
-    destruct e as [| n args]; [reflexivity|]. cbn in *. rewrite negb_true_iff, !orb_false_iff in *. tauto.
-  Qed.
-  Lemma sn_popev es : forallb sn es = true -> forallb popev es = true.
-  Proof.
-    induction es as [|e es IH]; cbn [forallb]; [auto|]. rewrite !andb_true_iff. intros [He Hes]. split; [|apply IH; exact Hes].
-    destruct e as [| n args]; [reflexivity|]. cbn in *. rewrite negb_true_iff, !orb_false_iff in *. tauto.
-  Qed.
-
   Definition PExt (g : G) (a1 : Aux) (a3 : Aux3) (tr : list (nat * ev)) : Prop :=
     (forall t, psh (a3 t) = true -> In t (pp (scan_of tr))) /\
-    (forall t, pin (a3 t) = true -> In t (qq (scan_of tr))) /\
-    (forall t, inop (tvs a1 t) = true -> psh (a3 t) = true \/ pin (a3 t) = true) /\
+    (forall t, psh (a3 t) = true -> seen (scan_of tr) = false \/ bad (scan_of tr) = true) /\
+    (forall t, pin (a3 t) = true -> seen (scan_of tr) = true) /\
+    (seen (scan_of tr) = false -> forall t, inop (tvs a1 t) = true -> psh (a3 t) = true) /\
     (forall t, pin (a3 t) = false -> plk (a3 t) = [] /\ pdirty (a3 t) = None /\ pst (a3 t) = NotLin) /\
-    (dp tr = false -> PopFacts g a1 a3 /\ PL g a1 a3 tr).
+    (bad (scan_of tr) = false -> seen (scan_of tr) = true -> PopFacts g a1 a3 /\ PL g a1 a3 tr).
 
   Definition TAux := ((Aux * Aux2) * Aux3)%type.
   Definition tview (a : TAux) (t : nat) : (tv * tv2) * pv := (jview (fst a) t, snd a t).
   Definition TInv (g : G) (a : TAux) (tr : list (nat * ev)) : Prop :=
-    JInv g (fst a) tr /\ PExt g (fst (fst a)) (snd a) tr.
-  Notation jsafe := (@Conc.safe G V ev JAux (tv * tv2) jview JInv).
+    JInv cap g (fst a) tr /\ PExt g (fst (fst a)) (snd a) tr.
+  Notation jsafe := (@Conc.safe G V ev JAux (tv * tv2) jview (JInv cap)).
   Notation tsafe := (@Conc.safe G V ev TAux ((tv * tv2) * pv) tview TInv).
 
   (** *** while this thread is inside a push nothing is claimed by [PExt]: programs that emit only scan-neutral
@@ -1020,10 +917,10 @@ Section Pop.
     psh (a3 t) = true -> forallb sn es = true -> (forall u, u <> t -> tvs a1' u = tvs a1 u) ->
     PExt g a1 a3 tr -> PExt g' a1' a3 (tr ++ Conc.tag t es).
   Proof.
-    intros Hp Hes Hoth (U1 & U3 & U4 & U6 & U5). unfold PExt, dp. rewrite (scan_neutral_app tr t es Hes).
-    split; [exact U1|]. split; [exact U3|]. split; [|split; [exact U6|]].
-    - intros u Hu. destruct (Nat.eq_dec u t) as [->|N]; [left; exact Hp|]. rewrite Hoth in Hu by exact N. apply (U4 u Hu).
-    - intros Hb. rewrite (ne_in _ _ (U1 t Hp)), orb_true_r in Hb. discriminate.
+    intros Hp Hes Hoth (U1 & U2 & U3 & U4 & U6 & U5). unfold PExt. rewrite (scan_neutral_app tr t es Hes).
+    split; [exact U1|]. split; [exact U2|]. split; [exact U3|]. split; [|split; [exact U6|]].
+    - intros Hs u Hu. destruct (Nat.eq_dec u t) as [->|N]; [exact Hp|]. rewrite Hoth in Hu by exact N. apply (U4 Hs u Hu).
+    - intros Hb Hs. destruct (U2 t Hp) as [K|K]; congruence.
   Qed.
 
   Lemma lift_psh {R} (p : prog R) : forall t l (Q : R -> tv * tv2 -> Prop) P3,
@@ -1048,33 +945,23 @@ Section Pop.
   (** *** a step of a pop *)
   Lemma PExt_pop g g' a1 a1' a3 a3' tr t es :
     pin (a3 t) = true -> pin (a3' t) = true -> psh (a3' t) = psh (a3 t) ->
-    (forall u, u <> t -> tvs a1' u = tvs a1 u) -> (forall u, u <> t -> a3' u = a3 u) -> forallb sn es = true ->
+    (forall u, u <> t -> a3' u = a3 u) -> forallb sn es = true ->
     (PopFacts g a1 a3 -> PL g a1 a3 tr -> PopFacts g' a1' a3' /\ PL g' a1' a3' (tr ++ Conc.tag t es)) ->
     PExt g a1 a3 tr -> PExt g' a1' a3' (tr ++ Conc.tag t es).
   Proof.
-    intros Hp Hp' Hs Hoth1 Hoth Hes HF (U1 & U3 & U4 & U6 & U5). unfold PExt, dp. rewrite (scan_neutral_app tr t es Hes).
+    intros Hp Hp' Hs Hoth Hes HF (U1 & U2 & U3 & U4 & U6 & U5). unfold PExt. rewrite (scan_neutral_app tr t es Hes).
     assert (Hpsh : forall u, psh (a3' u) = psh (a3 u)) by (intros u; destruct (Nat.eq_dec u t) as [->|N]; [exact Hs|rewrite Hoth by exact N; reflexivity]).
-    split; [intros u; rewrite Hpsh; apply U1|].
-    split; [intros u Hu; destruct (Nat.eq_dec u t) as [->|N]; [apply U3; exact Hp|rewrite Hoth in Hu by exact N; apply U3; exact Hu]|].
-    split; [|split].
-    - intros u Hu. destruct (Nat.eq_dec u t) as [->|N]; [right; exact Hp'|]. rewrite Hoth1 in Hu by exact N. rewrite Hoth by exact N. rewrite <- (Hpsh u), Hoth by exact N. apply (U4 u Hu).
+    pose proof (U3 t Hp) as Hseen.
+    split; [intros u; rewrite Hpsh; apply U1|]. split; [intros u; rewrite Hpsh; apply U2|].
+    split; [intros u Hu; exact Hseen|]. split; [intros E; congruence|]. split.
     - intros u Hu. destruct (Nat.eq_dec u t) as [->|N]; [congruence|]. rewrite Hoth in * by exact N. apply U6. exact Hu.
-    - intros Hb. destruct (U5 Hb) as [F L]. apply HF; assumption.
+    - intros Hb _. destruct (U5 Hb Hseen) as [F L]. apply HF; assumption.
   Qed.
 
   Lemma PExt_pop_id g a1 a3 tr t es :
     pin (a3 t) = true -> forallb sn es = true -> forallb quiet1 es = true -> PExt g a1 a3 tr -> PExt g a1 a3 (tr ++ Conc.tag t es).
   Proof.
     intros Hp H1 H2. apply (PExt_pop g g a1 a1 a3 a3 tr t es); auto. intros F L. split; [exact F|apply PL_quiet; assumption].
-  Qed.
-
-  (** the second component under a step of a thread inside a pop *)
-  Lemma Ext_pop g g' a1 a1' a2 tr t es :
-    a2 t = mkT2 None true -> forallb sn es = true -> (forall u, u <> t -> tvs a1' u = tvs a1 u) ->
-    Ext g a1 a2 tr -> Ext g' a1' a2 (tr ++ Conc.tag t es).
-  Proof.
-    intros V2 Hes Hoth He. apply (Ext_susp dq Pq HPDq g g' a1 a1' a2 tr _ t); auto; try (rewrite V2; reflexivity).
-    intros u. unfold Pq. rewrite (scan_neutral_app tr t es Hes). auto.
   Qed.
 
   Definition optQ3 {R} (Q : R -> (tv * tv2) * pv -> Prop) : option R -> (tv * tv2) * pv -> Prop :=
@@ -1088,7 +975,7 @@ Section Pop.
   Proof.
     intros Hp. unfold stop_err. destruct c as [|[|c]]; cbn [Conc.safe]; intros g [[a1 a2] a3] tr [[Hi He] Hx] Hv;
       unfold tview, jview, PV in Hv; cbn [fst snd] in *; inversion Hv as [[V1 V2 V3]]; assert (Hpt : pin (a3 t) = true) by (rewrite V3; exact Hp); exists ((a1, a2), a3);
-      (split; [split; [split; [apply Inv_irrelevant; [reflexivity|exact Hi]|cbn [fst snd]; apply (Ext_pop g g a1 a1 a2 tr t _ V2); [reflexivity|intros; reflexivity|exact He]]|
+      (split; [split; [split; [apply Inv_irrelevant; [reflexivity|exact Hi]|cbn [fst snd]; apply (Ext_vpop g g a1 a1 a2 tr _ t); [rewrite V2; reflexivity|exact He]]|
                        cbn [fst snd]; apply (PExt_pop_id g a1 a3 tr t); auto]
               |split; [intros u Hu; reflexivity|exact I]]).
   Qed.
@@ -1130,13 +1017,13 @@ Section Pop.
         unfold tview, jview, PV in Hv; cbn [fst snd] in *; inversion Hv as [[V1 V2 V3]]; assert (Hpt : pin (a3 t) = true) by (rewrite V3; exact Hp).
         unfold a_lock. destruct (lockbit g l) eqn:Hl.
         + exists ((a1, a2), a3). cbn [fst snd]. split; [split; [split; [apply Inv_irrelevant; [reflexivity|exact Hi]|]|]|].
-          * cbn [fst snd]. apply (Ext_pop g g a1 a1 a2 tr t _ V2); [reflexivity|intros; reflexivity|exact He].
+          * cbn [fst snd]. apply (Ext_vpop g g a1 a1 a2 tr _ t); [rewrite V2; reflexivity|exact He].
           * cbn [fst snd]. apply (PExt_pop_id g a1 a3 tr t); auto.
           * split; [intros u Hu; reflexivity|]. cbn [vbusy vbusyV]. unfold tview, jview. cbn [fst snd]. rewrite V1, V2, V3. exact IHi.
         + destruct (H g a1 a3 tr Hi V1 V3 Hl) as (a1' & a3' & K1 & K2 & K3 & K4 & K5 & K6 & K7 & K8).
           destruct (bd (set_lockbit g l true)) as [[g' v] es]. cbn [fst snd] in *.
           exists ((a1', a2), a3'). split; [split; [split; [exact K1|]|]|].
-          * cbn [fst snd]. apply (Ext_pop g g' a1 a1' a2 tr t _ V2); [cbn [forallb sn]; exact K2|exact K3|exact He].
+          * cbn [fst snd]. apply (Ext_vpop g g' a1 a1' a2 tr _ t); [rewrite V2; reflexivity|exact He].
           * cbn [fst snd]. apply (PExt_pop g g' a1 a1' a3 a3' tr t); auto. rewrite V3; exact K6.
           * split; [apply tframe; assumption|]. cbn [vbusy unbusy Conc.safe]. unfold tview, jview. cbn [fst snd]. rewrite V2.
             apply tsafe_checked; [exact K5|exact K8].
@@ -1144,7 +1031,7 @@ Section Pop.
         unfold tview, jview, PV in Hv; cbn [fst snd] in *; inversion Hv as [[V1 V2 V3]]; assert (Hpt : pin (a3 t) = true) by (rewrite V3; exact Hp).
         unfold a_load. cbn [fst snd]. exists ((a1, a2), a3).
         split; [split; [split; [apply Inv_irrelevant; [reflexivity|exact Hi]|]|]|].
-        + cbn [fst snd]. apply (Ext_pop g g a1 a1 a2 tr t _ V2); [reflexivity|intros; reflexivity|exact He].
+        + cbn [fst snd]. apply (Ext_vpop g g a1 a1 a2 tr _ t); [rewrite V2; reflexivity|exact He].
         + cbn [fst snd]. apply (PExt_pop_id g a1 a3 tr t); auto.
         + split; [intros u Hu; reflexivity|]. unfold tview, jview. cbn [fst snd]. rewrite V1, V2, V3.
           destruct (lockbit g l); cbn [vbusy vbusyV v0]; assumption. }
@@ -1170,7 +1057,7 @@ Section Pop.
     destruct (H g a1 a3 tr Hi V1 V3) as (a1' & a3' & K1 & K2 & K3 & K4 & K5 & K6 & K7 & K8). unfold a_unlock.
     destruct (bd g) as [[g' v] es]. cbn [fst snd] in *. exists ((a1', a2), a3').
     split; [split; [split; [exact K1|]|]|].
-    - cbn [fst snd]. apply (Ext_pop g _ a1 a1' a2 tr t _ V2); [cbn [forallb sn]; exact K2|exact K3|exact He].
+    - cbn [fst snd]. apply (Ext_vpop g _ a1 a1' a2 tr _ t); [rewrite V2; reflexivity|exact He].
     - cbn [fst snd]. apply (PExt_pop g _ a1 a1' a3 a3' tr t); auto. rewrite V3; exact K6.
     - split; [apply tframe; assumption|]. unfold tview, jview. cbn [fst snd]. rewrite V2. apply tsafe_checked; [exact K5|exact K8].
   Qed.
@@ -1709,64 +1596,68 @@ Section Pop.
                 intros [[]|] l' Hl'; cbn in Hl' |- *; [rewrite Hl'; reflexivity|exact I].
   Qed.
   (** *** the events at the boundaries of the operations *)
-  Lemma PL_quiescent g a1 a3 tr s (stt : nat -> status Sp) :
-    lp_run lp_init (atrace cap tr) = Some (s, stt) -> List.length s = count g -> (forall u, stt u = Lin.Idle) ->
-    Permutation s (prios cap (cellv g)) -> (forall u, pin (a3 u) = false) -> PL g a1 a3 tr.
-  Proof.
-    intros Hrun Hlen Hidle HM Hp. exists s, stt, None, None. split; [exact Hrun|]. split; [exact Hlen|]. split; [|split; [|split; [|split]]].
-    - intros u. unfold stat3. rewrite Hp. apply Hidle.
-    - intros u r E. discriminate.
-    - intros u r E. discriminate.
-    - intros u Hpu. rewrite Hp in Hpu. discriminate.
-    - cbn. rewrite !app_nil_r. exact HM.
-  Qed.
+  Lemma scan_snoc tr t e : scan_of (tr ++ Conc.tag t [e]) = scan_step (scan_of tr) (t, e).
+  Proof. rewrite scan_app. reflexivity. Qed.
 
   Lemma PExt_idle g a1 a3 tr t es : forallb sn es = true -> forallb quiet1 es = true -> PExt g a1 a3 tr -> PExt g a1 a3 (tr ++ Conc.tag t es).
   Proof.
-    intros Hes Hq (U1 & U3 & U4 & U6 & U5). unfold PExt, dp. rewrite (scan_neutral_app tr t es Hes).
-    split; [exact U1|]. split; [exact U3|]. split; [exact U4|]. split; [exact U6|].
-    intros Hb. destruct (U5 Hb) as [F L]. split; [exact F|apply PL_quiet; assumption].
+    intros Hes Hq (U1 & U2 & U3 & U4 & U6 & U5). unfold PExt. rewrite (scan_neutral_app tr t es Hes).
+    split; [exact U1|]. split; [exact U2|]. split; [exact U3|]. split; [exact U4|]. split; [exact U6|].
+    intros Hb Hs. destruct (U5 Hb Hs) as [F L]. split; [exact F|apply PL_quiet; assumption].
   Qed.
 
   Lemma PExt_inv_push g a1 a1' a3 tr t args :
     (forall u, u <> t -> tvs a1' u = tvs a1 u) -> PExt g a1 a3 tr ->
     PExt g a1' (upd3 a3 t (mkP false true [] None None NotLin)) (tr ++ Conc.tag t [EvCli "inv_push" args]).
   Proof.
-    intros Hoth (U1 & U3 & U4 & U6 & U5). unfold PExt, dp. rewrite scan_snoc.
+    intros Hoth (U1 & U2 & U3 & U4 & U6 & U5). unfold PExt. rewrite scan_snoc.
     change (scan_step (scan_of tr) (t, EvCli "inv_push" args))
-      with (mkS (t :: pp (scan_of tr)) (qq (scan_of tr)) (bad (scan_of tr) || ne (qq (scan_of tr)))).
-    cbn [pp qq bad]. set (s := scan_of tr) in *.
-    split; [|split; [|split; [|split]]].
+      with (mkS (t :: pp (scan_of tr)) (seen (scan_of tr)) (bad (scan_of tr) || seen (scan_of tr))).
+    cbn [pp seen bad]. set (s := scan_of tr) in *.
+    split; [|split; [|split; [|split; [|split]]]].
     - intros u Hu. destruct (Nat.eq_dec u t) as [->|N]; [left; reflexivity|]. rewrite upd3_other in Hu by exact N. right. apply U1. exact Hu.
-    - intros u Hu. destruct (Nat.eq_dec u t) as [->|N]; [rewrite upd3_same in Hu; discriminate|]. rewrite upd3_other in Hu by exact N. apply U3. exact Hu.
-    - intros u Hu. destruct (Nat.eq_dec u t) as [->|N]; [left; rewrite upd3_same; reflexivity|]. rewrite upd3_other by exact N. apply U4. rewrite <- Hoth by exact N. exact Hu.
+    - intros u Hu. destruct (seen s); [right; apply orb_true_r|left; reflexivity].
+    - intros u Hu. destruct (Nat.eq_dec u t) as [->|N]; [rewrite upd3_same in Hu; discriminate|]. rewrite upd3_other in Hu by exact N. apply U3 with u. exact Hu.
+    - intros Hs u Hu. destruct (Nat.eq_dec u t) as [->|N]; [rewrite upd3_same; reflexivity|]. rewrite upd3_other by exact N. apply (U4 Hs). rewrite <- Hoth by exact N. exact Hu.
     - intros u Hu. destruct (Nat.eq_dec u t) as [->|N]; [rewrite upd3_same; repeat split|]. rewrite upd3_other in * by exact N. apply U6. exact Hu.
-    - intros Hb. cbn in Hb. rewrite orb_true_r in Hb. discriminate.
+    - intros Hb Hs. rewrite Hs, orb_true_r in Hb. discriminate.
   Qed.
 
-  Lemma Inv_quiescent_perm g a1 tr :
-    Inv g a1 tr -> (forall t, inop (tvs a1 t) = false) -> Permutation (heap_items cap g ++ given_back tr) (invoked tr).
+  Lemma PExt_ret_push g a1 a1' a3 tr t args :
+    psh (a3 t) = true -> (forall u, u <> t -> tvs a1' u = tvs a1 u) -> inop (tvs a1' t) = false -> PExt g a1 a3 tr ->
+    PExt g a1' (upd3 a3 t idle3) (tr ++ Conc.tag t [EvCli "ret_push" args]).
   Proof.
-    intros Hi Hq. destruct (iH _ _ _ _ Hi) as (H1 & H2 & H3).
-    assert (Hh : held a1 = []).
-    { destruct (held a1) as [|[t x] r] eqn:E; [reflexivity|]. exfalso.
-      assert (Hin : hand (tvs a1 t) = Some x) by (apply H2; left; reflexivity).
-      pose proof (H3 t ltac:(rewrite Hin; discriminate)) as K. rewrite Hq in K. discriminate. }
-    apply (Permutation_count_occ item_eq_dec). intros x. rewrite !count_occ_app. pose proof (iM _ _ _ _ Hi x) as E.
-    unfold hcount in E. rewrite Hh in E. cbn in E. lia.
+    intros Hp Hoth Hin (U1 & U2 & U3 & U4 & U6 & U5). unfold PExt. rewrite scan_snoc.
+    change (scan_step (scan_of tr) (t, EvCli "ret_push" args))
+      with (mkS (filter (fun u => negb (Nat.eqb u t)) (pp (scan_of tr))) (seen (scan_of tr)) (bad (scan_of tr))).
+    cbn [pp seen bad]. set (s := scan_of tr) in *.
+    split; [|split; [|split; [|split; [|split]]]].
+    - intros u Hu. destruct (Nat.eq_dec u t) as [->|N]; [rewrite upd3_same in Hu; discriminate|]. rewrite upd3_other in Hu by exact N.
+      apply filter_In. split; [apply U1; exact Hu|]. apply negb_true_iff. apply Nat.eqb_neq. exact N.
+    - intros u Hu. destruct (Nat.eq_dec u t) as [->|N]; [rewrite upd3_same in Hu; discriminate|]. rewrite upd3_other in Hu by exact N. apply (U2 u Hu).
+    - intros u Hu. destruct (Nat.eq_dec u t) as [->|N]; [rewrite upd3_same in Hu; discriminate|]. rewrite upd3_other in Hu by exact N. apply (U3 u Hu).
+    - intros Hs u Hu. destruct (Nat.eq_dec u t) as [->|N]; [congruence|]. rewrite upd3_other by exact N. apply (U4 Hs). rewrite <- Hoth by exact N. exact Hu.
+    - intros u Hu. destruct (Nat.eq_dec u t) as [->|N]; [rewrite upd3_same; repeat split|]. rewrite upd3_other in * by exact N. apply U6. exact Hu.
+    - intros Hb Hs. destruct (U2 t Hp); congruence.
   Qed.
 
-  (** what the layer that follows the specification state through push phases hands over *)
-  Definition spec_quiescent (g : G) (tr : list (nat * ev)) : Prop :=
-    exists (s : list Z) (stt : nat -> status Sp), lp_run lp_init (atrace cap tr) = Some (s, stt) /\ List.length s = count g /\
-      (forall u, stt u = Lin.Idle) /\ Permutation (s ++ map prio (given_back tr)) (map prio (invoked tr)).
-
-  Lemma spec_cells g a1 tr s :
-    Inv g a1 tr -> (forall t, inop (tvs a1 t) = false) ->
-    Permutation (s ++ map prio (given_back tr)) (map prio (invoked tr)) -> Permutation s (prios cap (cellv g)).
+  Lemma PExt_ret_pop g a1 a1' a3 tr t args rv :
+    a3 t = Vdone -> (forall u, u <> t -> tvs a1' u = tvs a1 u) -> tvs a1' t = idle ->
+    aev_of cap (t, EvCli "ret_pop" args) = [@ARes Sp t (RVal rv : Res Sp)] -> option_map prio (hand (tvs a1 t)) = rv ->
+    PExt g a1 a3 tr ->
+    PExt g a1' (upd3 a3 t idle3) (tr ++ Conc.tag t [EvCli "ret_pop" args]).
   Proof.
-    intros Hi Hidle HM. pose proof (Inv_quiescent_perm g a1 tr Hi Hidle) as HP. apply (Permutation_map prio) in HP. rewrite map_app in HP.
-    apply Permutation_app_inv_r with (l := map prio (given_back tr)). rewrite HM. apply Permutation_sym. exact HP.
+    intros Hv Hoth Hid Hae Hrv (U1 & U2 & U3 & U4 & U6 & U5). unfold PExt. rewrite (scan_neutral_app tr t [EvCli "ret_pop" args] eq_refl).
+    assert (Hseen : seen (scan_of tr) = true) by (apply (U3 t); rewrite Hv; reflexivity).
+    split; [|split; [|split; [|split; [|split]]]].
+    - intros u Hu. destruct (Nat.eq_dec u t) as [->|N]; [rewrite upd3_same in Hu; discriminate|]. rewrite upd3_other in Hu by exact N. apply (U1 u Hu).
+    - intros u Hu. destruct (Nat.eq_dec u t) as [->|N]; [rewrite upd3_same in Hu; discriminate|]. rewrite upd3_other in Hu by exact N. apply (U2 u Hu).
+    - intros u Hu. exact Hseen.
+    - congruence.
+    - intros u Hu. destruct (Nat.eq_dec u t) as [->|N]; [rewrite upd3_same; repeat split|]. rewrite upd3_other in * by exact N. apply U6. exact Hu.
+    - intros Hb Hs. destruct (U5 Hb Hs) as [F L]. split.
+      + apply (PF_io g a1 a1' a3 t idle3 F); rewrite ?Hv, ?Hid; try reflexivity; [exact Hoth|discriminate].
+      + apply (PL_ret_pop g a1 a1' a3 tr t args rv Hv Hae Hrv Hoth L).
   Qed.
 
   (** ancestors of a cell in use are in use (push phase, quiescent) *)
@@ -1802,159 +1693,47 @@ Section Pop.
     - exact Hps.
     - intros u p ch Hd. destruct (Hclean u) as (_ & _ & E). congruence.
     - intros u Hu. destruct (Hclean u) as (E & _). congruence.
-    - intros u _. destruct (Hclean u) as (_ & E1 & E2). split; [exact E1|]. split; [exact E2|]. split; [apply A1|].
-      destruct (hs (tvs a1 u)) eqn:E; [|reflexivity]. pose proof (A2 u (or_introl E)) as K. rewrite Hidle in K. discriminate.
+    - intros u _. destruct (Hclean u) as (_ & E1 & E2). split; [exact E1|]. split; [exact E2|apply A1].
   Qed.
 
-  (** the last pending push returns: the pop-phase claims are established *)
-  Lemma PExt_ret_push g a1 a1' a2 a3 tr t args :
-    a3 t = mkP false true [] None None NotLin -> (forall u, u <> t -> tvs a1' u = tvs a1 u) -> tvs a1' t = idle ->
-    Inv g a1' (tr ++ Conc.tag t [EvCli "ret_push" args]) -> Ext g a1' a2 (tr ++ Conc.tag t [EvCli "ret_push" args]) ->
-    (dp (tr ++ Conc.tag t [EvCli "ret_push" args]) = false -> spec_quiescent g (tr ++ Conc.tag t [EvCli "ret_push" args])) ->
+  Lemma PExt_inv_pop g a1 a1' a2 a3 tr t :
+    Inv g a1 tr -> Ext g a1 a2 tr -> a3 t = idle3 -> (forall u, u <> t -> tvs a1' u = tvs a1 u) ->
+    pstore (tvs a1' t) = None -> inop (tvs a1' t) = true ->
+    (seen (scan_of tr) = false -> (forall u, pend tr u = false) ->
+       exists (s : list Z) (stt : nat -> status Sp), lp_run lp_init (atrace cap tr) = Some (s, stt) /\ List.length s = count g /\
+         (forall u, stt u = Lin.Idle) /\ Permutation s (prios cap (cellv g))) ->
     PExt g a1 a3 tr ->
-    PExt g a1' (upd3 a3 t idle3) (tr ++ Conc.tag t [EvCli "ret_push" args]).
+    PExt g a1' (upd3 a3 t Vstart) (tr ++ Conc.tag t [EvCli "inv_pop" []]).
   Proof.
-    intros Hv Hoth Hid Hi' He' Hfirst (U1 & U3 & U4 & U6 & U5). set (tr' := tr ++ Conc.tag t [EvCli "ret_push" args]) in *.
-    assert (Es : scan_of tr' = mkS (del t (pp (scan_of tr))) (qq (scan_of tr)) (bad (scan_of tr))) by (unfold tr'; rewrite scan_snoc; reflexivity).
-    unfold PExt. split; [|split; [|split; [|split]]].
-    - intros u Hu. rewrite Es. cbn [pp]. destruct (Nat.eq_dec u t) as [->|N]; [rewrite upd3_same in Hu; discriminate|]. rewrite upd3_other in Hu by exact N.
-      apply in_del. split; [exact N|apply U1; exact Hu].
-    - intros u Hu. rewrite Es. cbn [qq]. destruct (Nat.eq_dec u t) as [->|N]; [rewrite upd3_same in Hu; discriminate|]. rewrite upd3_other in Hu by exact N. apply (U3 u Hu).
-    - intros u Hu. destruct (Nat.eq_dec u t) as [->|N]; [rewrite Hid in Hu; discriminate|]. rewrite upd3_other by exact N. apply U4. rewrite <- Hoth by exact N. exact Hu.
-    - intros u Hu. destruct (Nat.eq_dec u t) as [->|N]; [rewrite upd3_same; repeat split|]. rewrite upd3_other in * by exact N. apply U6. exact Hu.
-    - intros Hb. pose proof Hb as Hb0. unfold dp in Hb. rewrite Es in Hb. cbn [pp bad] in Hb. apply orb_false_iff in Hb. destruct Hb as [Hbad Hpp].
-      assert (Hdel : del t (pp (scan_of tr)) = []) by (destruct (del t (pp (scan_of tr))); [reflexivity|discriminate]).
-      assert (Htin : In t (pp (scan_of tr))) by (apply U1; rewrite Hv; reflexivity).
-      assert (Hqq : qq (scan_of tr) = []) by (destruct (scan_excl tr Hbad) as [E|E]; [rewrite E in Htin; destruct Htin|exact E]).
-      assert (Hdq : dq tr' = false) by (unfold dq; rewrite Es; cbn [qq bad]; rewrite Hbad, Hqq; reflexivity).
-      destruct He' as (_ & E2 & _). destruct (E2 Hdq) as (HW & HB & HA).
-      assert (Hpin : forall u, pin (upd3 a3 t idle3 u) = false).
-      { intros u. destruct (Nat.eq_dec u t) as [->|N]; [rewrite upd3_same; reflexivity|]. rewrite upd3_other by exact N.
-        destruct (pin (a3 u)) eqn:E; [|reflexivity]. pose proof (U3 u E) as K. rewrite Hqq in K. destruct K. }
-      assert (Hidle : forall u, inop (tvs a1' u) = false).
-      { intros u. destruct (Nat.eq_dec u t) as [->|N]; [rewrite Hid; reflexivity|]. rewrite Hoth by exact N.
-        destruct (inop (tvs a1 u)) eqn:E; [|reflexivity]. destruct (U4 u E) as [K|K].
-        - pose proof (U1 u K) as K'. assert (In u (del t (pp (scan_of tr)))) by (apply in_del; auto). rewrite Hdel in H. destruct H.
-        - pose proof (U3 u K) as K'. rewrite Hqq in K'. destruct K'. }
-      assert (F : PopFacts g a1' (upd3 a3 t idle3)).
-      { apply (PF_first g a1' a2 _ tr' Hi' HW HB HA Hidle). intros u. split; [apply Hpin|].
-        destruct (Nat.eq_dec u t) as [->|N]; [rewrite upd3_same; split; reflexivity|]. rewrite upd3_other by exact N.
-        specialize (Hpin u). rewrite upd3_other in Hpin by exact N. destruct (U6 u Hpin) as (Q1 & Q2 & _). auto. }
-      split; [exact F|]. destruct (Hfirst Hb0) as (s & stt & Hrun & Hlen & Hst & HM).
-      apply (PL_quiescent g a1' _ tr' s stt Hrun Hlen Hst); [|exact Hpin]. apply (spec_cells g a1' tr' s Hi' Hidle HM).
-  Qed.
-
-  Lemma PExt_ret_pop g a1 a1' a3 tr t args rv :
-    a3 t = Vdone -> (forall u, u <> t -> tvs a1' u = tvs a1 u) -> tvs a1' t = idle ->
-    aev_of cap (t, EvCli "ret_pop" args) = [@ARes Sp t (RVal rv : Res Sp)] -> option_map prio (hand (tvs a1 t)) = rv ->
-    PExt g a1 a3 tr ->
-    PExt g a1' (upd3 a3 t idle3) (tr ++ Conc.tag t [EvCli "ret_pop" args]).
-  Proof.
-    intros Hv Hoth Hid Hae Hrv (U1 & U3 & U4 & U6 & U5). set (tr' := tr ++ Conc.tag t [EvCli "ret_pop" args]) in *.
-    assert (Es : scan_of tr' = mkS (pp (scan_of tr)) (del t (qq (scan_of tr))) (bad (scan_of tr))) by (unfold tr'; rewrite scan_snoc; reflexivity).
-    unfold PExt. split; [|split; [|split; [|split]]].
-    - intros u Hu. rewrite Es. cbn [pp]. destruct (Nat.eq_dec u t) as [->|N]; [rewrite upd3_same in Hu; discriminate|]. rewrite upd3_other in Hu by exact N. apply (U1 u Hu).
-    - intros u Hu. rewrite Es. cbn [qq]. destruct (Nat.eq_dec u t) as [->|N]; [rewrite upd3_same in Hu; discriminate|]. rewrite upd3_other in Hu by exact N.
-      apply in_del. split; [exact N|apply U3; exact Hu].
-    - intros u Hu. destruct (Nat.eq_dec u t) as [->|N]; [rewrite Hid in Hu; discriminate|]. rewrite upd3_other by exact N. apply U4. rewrite <- Hoth by exact N. exact Hu.
-    - intros u Hu. destruct (Nat.eq_dec u t) as [->|N]; [rewrite upd3_same; repeat split|]. rewrite upd3_other in * by exact N. apply U6. exact Hu.
-    - intros Hb. unfold dp in Hb. rewrite Es in Hb. cbn [pp bad] in Hb. destruct (U5 Hb) as [F L]. split.
-      + apply (PF_io g a1 a1' a3 t idle3 F); rewrite ?Hv, ?Hid; try reflexivity; [exact Hoth|discriminate|intros _; split; reflexivity].
-      + apply (PL_ret_pop g a1 a1' a3 tr t args rv Hv Hae Hrv Hoth L).
-  Qed.
-
-  Lemma PExt_inv_pop g a1 a1' a3 tr t :
-    a3 t = idle3 -> (forall u, u <> t -> tvs a1' u = tvs a1 u) -> pstore (tvs a1' t) = None -> inop (tvs a1' t) = true ->
-    PExt g a1 a3 tr -> PExt g a1' (upd3 a3 t Vstart) (tr ++ Conc.tag t [EvCli "inv_pop" []]).
-  Proof.
-    intros Hid Hoth Hps Hin (U1 & U3 & U4 & U6 & U5). unfold PExt, dp. rewrite scan_snoc.
+    intros Hi He Hid Hoth Hps Hin Hfirst (U1 & U2 & U3 & U4 & U6 & U5). unfold PExt. rewrite scan_snoc.
     change (scan_step (scan_of tr) (t, EvCli "inv_pop" []))
-      with (mkS (pp (scan_of tr)) (t :: qq (scan_of tr)) (bad (scan_of tr) || ne (pp (scan_of tr)))).
-    cbn [pp qq bad].
-    split; [|split; [|split; [|split]]].
+      with (mkS (pp (scan_of tr)) true (bad (scan_of tr) || match pp (scan_of tr) with [] => false | _ => true end)).
+    cbn [pp seen bad].
+    split; [|split; [|split; [|split; [|split]]]].
     - intros u Hu. destruct (Nat.eq_dec u t) as [->|N]; [rewrite upd3_same in Hu; discriminate|]. rewrite upd3_other in Hu by exact N. apply (U1 u Hu).
-    - intros u Hu. destruct (Nat.eq_dec u t) as [->|N]; [left; reflexivity|]. rewrite upd3_other in Hu by exact N. right. apply (U3 u Hu).
-    - intros u Hu. destruct (Nat.eq_dec u t) as [->|N]; [right; rewrite upd3_same; reflexivity|]. rewrite upd3_other by exact N. apply U4. rewrite <- Hoth by exact N. exact Hu.
+    - intros u Hu. destruct (Nat.eq_dec u t) as [->|N]; [rewrite upd3_same in Hu; discriminate|]. rewrite upd3_other in Hu by exact N.
+      right. pose proof (U1 u Hu) as Hin'. destruct (pp (scan_of tr)); [destruct Hin'|apply orb_true_r].
+    - reflexivity.
+    - discriminate.
     - intros u Hu. destruct (Nat.eq_dec u t) as [->|N]; [rewrite upd3_same in Hu; discriminate|]. rewrite upd3_other in * by exact N. apply U6. exact Hu.
-    - intros Hb. assert (Hb' : dp tr = false) by (unfold dp; destruct (bad (scan_of tr)), (ne (pp (scan_of tr))); cbn in *; congruence).
-      destruct (U5 Hb') as [F L]. split.
-      + apply (PF_io g a1 a1' a3 t Vstart F); rewrite ?Hid; try reflexivity; auto. discriminate.
-      + apply (PL_inv_pop g a1 a1' a3 tr t); [rewrite Hid; reflexivity|exact Hoth|exact L].
-  Qed.
-
-  (** the second component at the boundaries of a pop *)
-  Lemma Ext_inv_pop g a1 a1' a2 tr t :
-    a2 t = idle2 -> (forall u, u <> t -> tvs a1' u = tvs a1 u) -> Ext g a1 a2 tr ->
-    Ext g a1' (upd2 a2 t (mkT2 None true)) (tr ++ Conc.tag t [EvCli "inv_pop" []]).
-  Proof.
-    intros V2 Hoth (E1 & E2 & E3).
-    assert (Es : qq (scan_of (tr ++ Conc.tag t [EvCli "inv_pop" []])) = t :: qq (scan_of tr)) by (rewrite scan_snoc; reflexivity).
-    apply (Ext_dead dq Pq).
-    - intros u Hu. unfold Pq. rewrite Es. destruct (Nat.eq_dec u t) as [->|N]; [left; reflexivity|]. rewrite upd2_other in Hu by exact N. right. apply (E1 u Hu).
-    - intros u Hu. destruct (Nat.eq_dec u t) as [->|N]; [rewrite upd2_same in Hu; cbn in Hu; congruence|]. rewrite upd2_other in Hu by exact N. rewrite Hoth by exact N. apply (E3 u Hu).
-    - unfold dq. rewrite Es. apply orb_true_r.
-  Qed.
-
-  (** quiescent heap after pops: the claims of the push layer hold *)
-  Lemma WBA_quiescent g a1 a2 a3 tr :
-    Inv g a1 tr -> PopFacts g a1 a3 -> (forall u, pin (a3 u) = false) -> (forall u, own (a2 u) = None) ->
-    W_ok g a2 /\ B_ok g /\ A_ok a1 a2.
-  Proof.
-    intros Hi F Hp Ho. split; [|split; [|split]].
-    - intros i u. split; [intros E; exfalso; apply (k3 _ _ _ F i u E)|intros E; rewrite Ho in E; discriminate].
-    - intros k j x y Ha _ Hx Hy. destruct (k5 _ _ _ F k j x Ha Hx) as (y' & Hy' & Hle). rewrite Hy in Hy'. inversion Hy'; subst y'.
-      apply Hle. intros [u Hu]. destruct (k9 _ _ _ F u (Hp u)) as (_ & E & _). congruence.
-    - intros u. destruct (k9 _ _ _ F u (Hp u)) as (_ & _ & E & _). exact E.
-    - intros u [K|[K|K]]; exfalso.
-      + destruct (k9 _ _ _ F u (Hp u)) as (_ & _ & _ & E). congruence.
-      + apply K. apply (k6 _ _ _ F).
-      + apply K. apply Ho.
-  Qed.
-
-  Lemma Ext_ret_pop g a1 a1' a2 a3' tr t args :
-    a2 t = mkT2 None true -> (forall u, u <> t -> tvs a1' u = tvs a1 u) -> inop (tvs a1' t) = false ->
-    Inv g a1' (tr ++ Conc.tag t [EvCli "ret_pop" args]) -> PExt g a1' a3' (tr ++ Conc.tag t [EvCli "ret_pop" args]) ->
-    Ext g a1 a2 tr ->
-    Ext g a1' (upd2 a2 t idle2) (tr ++ Conc.tag t [EvCli "ret_pop" args]).
-  Proof.
-    intros V2 Hoth Hid Hi' (U1 & U3 & U4 & U6 & U5) (E1 & E2 & E3). set (tr' := tr ++ Conc.tag t [EvCli "ret_pop" args]) in *.
-    assert (Es : scan_of tr' = mkS (pp (scan_of tr)) (del t (qq (scan_of tr))) (bad (scan_of tr))) by (unfold tr'; rewrite scan_snoc; reflexivity).
-    assert (E3' : forall u, own (upd2 a2 t idle2 u) <> None -> inop (tvs a1' u) = true).
-    { intros u Hu. destruct (Nat.eq_dec u t) as [->|N]; [rewrite upd2_same in Hu; cbn in Hu; congruence|]. rewrite upd2_other in Hu by exact N. rewrite Hoth by exact N. apply (E3 u Hu). }
-    split; [|split; [|exact E3']].
-    - intros u Hu. unfold Pq. rewrite Es. cbn [qq]. destruct (Nat.eq_dec u t) as [->|N]; [rewrite upd2_same in Hu; discriminate|]. rewrite upd2_other in Hu by exact N.
-      apply in_del. split; [exact N|apply (E1 u Hu)].
-    - intros Hf. unfold dq in Hf. rewrite Es in Hf. cbn [qq bad] in Hf. apply orb_false_iff in Hf. destruct Hf as [Hbad Hq].
-      assert (Hdel : del t (qq (scan_of tr)) = []) by (destruct (del t (qq (scan_of tr))); [reflexivity|discriminate]).
-      assert (Htin : In t (qq (scan_of tr))) by (apply (E1 t); rewrite V2; reflexivity).
-      assert (Hpp : pp (scan_of tr) = []) by (destruct (scan_excl tr Hbad) as [E|E]; [exact E|rewrite E in Htin; destruct Htin]).
-      assert (Hdp : dp tr' = false) by (unfold dp; rewrite Es; cbn [pp bad]; rewrite Hbad, Hpp; reflexivity).
-      destruct (U5 Hdp) as [F _].
-      assert (Hpin : forall u, pin (a3' u) = false).
-      { intros u. destruct (pin (a3' u)) eqn:E; [|reflexivity]. pose proof (U3 u E) as K. rewrite Es in K. cbn [qq] in K. rewrite Hdel in K. destruct K. }
-      assert (Hidle : forall u, inop (tvs a1' u) = false).
-      { intros u. destruct (inop (tvs a1' u)) eqn:E; [|reflexivity]. destruct (U4 u E) as [K|K].
-        - pose proof (U1 u K) as K'. rewrite Es in K'. cbn [pp] in K'. rewrite Hpp in K'. destruct K'.
-        - rewrite Hpin in K. discriminate. }
-      apply (WBA_quiescent g a1' _ a3' tr' Hi' F Hpin). intros u. destruct (own (upd2 a2 t idle2 u)) eqn:E; [|reflexivity].
-      pose proof (E3' u ltac:(rewrite E; discriminate)) as K. rewrite Hidle in K. discriminate.
-  Qed.
-
-  Lemma ret_pop_quiescent tr t args :
-    In t (qq (scan_of tr)) -> dq (tr ++ Conc.tag t [EvCli "ret_pop" args]) = false -> dp (tr ++ Conc.tag t [EvCli "ret_pop" args]) = false.
-  Proof.
-    intros Hin. unfold dq, dp. rewrite scan_snoc.
-    change (scan_step (scan_of tr) (t, EvCli "ret_pop" args)) with (mkS (pp (scan_of tr)) (del t (qq (scan_of tr))) (bad (scan_of tr))).
-    cbn [pp qq bad]. intros H. apply orb_false_iff in H. destruct H as [Hb _]. rewrite Hb.
-    destruct (scan_excl tr Hb) as [E|E]; [rewrite E; reflexivity|rewrite E in Hin; destruct Hin].
-  Qed.
-  Lemma ret_push_quiescent tr t args :
-    In t (pp (scan_of tr)) -> dp (tr ++ Conc.tag t [EvCli "ret_push" args]) = false -> dq (tr ++ Conc.tag t [EvCli "ret_push" args]) = false.
-  Proof.
-    intros Hin. unfold dq, dp. rewrite scan_snoc.
-    change (scan_step (scan_of tr) (t, EvCli "ret_push" args)) with (mkS (del t (pp (scan_of tr))) (qq (scan_of tr)) (bad (scan_of tr))).
-    cbn [pp qq bad]. intros H. apply orb_false_iff in H. destruct H as [Hb _]. rewrite Hb.
-    destruct (scan_excl tr Hb) as [E|E]; [rewrite E in Hin; destruct Hin|rewrite E; reflexivity].
+    - intros Hb _. apply orb_false_iff in Hb. destruct Hb as [Hb Hpp].
+      destruct (seen (scan_of tr)) eqn:Es.
+      + destruct (U5 Hb eq_refl) as [F L]. split.
+        * apply (PF_io g a1 a1' a3 t Vstart F); rewrite ?Hid; try reflexivity; auto. discriminate.
+        * apply (PL_inv_pop g a1 a1' a3 tr t); [rewrite Hid; reflexivity|exact Hoth|exact L].
+      + assert (Hnopsh : forall u, psh (a3 u) = false).
+        { intros u. destruct (psh (a3 u)) eqn:E; [|reflexivity]. pose proof (U1 u E) as K. destruct (pp (scan_of tr)); [destruct K|discriminate]. }
+        assert (Hidle : forall u, inop (tvs a1 u) = false).
+        { intros u. destruct (inop (tvs a1 u)) eqn:E; [|reflexivity]. pose proof (U4 eq_refl u E) as K. rewrite Hnopsh in K. discriminate. }
+        assert (Hnp : pop_invoked tr = false) by (rewrite <- seen_pop_invoked; exact Es).
+        destruct He as [_ E2]. destruct (E2 Hnp) as (HW & HB & HA).
+        assert (Hpu : forall u, pin (a3 u) = false) by (intros u; destruct (pin (a3 u)) eqn:E; [pose proof (U3 u E); congruence|reflexivity]).
+        assert (F : PopFacts g a1 a3).
+        { apply (PF_first g a1 a2 a3 tr Hi HW HB HA Hidle). intros u. destruct (U6 u (Hpu u)) as (Q1 & Q2 & _). auto. }
+        assert (Hq : forall u, pend tr u = false) by (intros u; rewrite (iP _ _ _ _ Hi u); apply Hidle).
+        destruct (Hfirst eq_refl Hq) as (s & stt & Hrun & Hlen & Hst & HM). split.
+        * apply (PF_io g a1 a1' a3 t Vstart F); rewrite ?Hid; try reflexivity; auto. discriminate.
+        * apply (PL_first g a1' a3 tr t s stt Hrun Hlen Hst HM Hpu).
   Qed.
 
   (** *** push is scan-neutral *)
@@ -2019,211 +1798,144 @@ Section Pop.
   Qed.
 
 
-
-  Lemma quietp_heapify_pop lf : forall hf p c, quietp (heapify_pop hf lf bsz p c).
-  Proof.
-    induction hf as [|hf IH]; intros p c; [exact I|]. cbn [heapify_pop]. destruct (Nat.ltb c bsz).
-    - apply quietp_lock_.
-      + intros g. unfold body_child. destruct (tag_eqb _ _); [reflexivity|]. destruct (Nat.ltb _ _); [reflexivity|].
-        unfold cmp_swap. destruct (nval _); [destruct (nval _); [destruct (Z.gtb _ _)|]|]; reflexivity.
-      + intros v. destruct (vn v) as [|[|[|n]]].
-        * apply quietp_unlock_; [apply qbody_none|]. intros _. apply quietp_unlock_; [apply qbody_none|]. intros _. exact I.
-        * apply quietp_lock_.
-          -- intros g. unfold body_right. destruct (negb _); [destruct (nval _); [destruct (nval _)|]|]; reflexivity.
-          -- intros w. apply quietp_unlock_.
-             ++ intros g. unfold cmp_swap. destruct (nval _); [destruct (nval _); [destruct (Z.gtb _ _)|]|]; reflexivity.
-             ++ intros u. destruct (vb u).
-                ** apply quietp_unlock_; [apply qbody_none|]. intros _. apply IH.
-                ** apply quietp_unlock_; [apply qbody_none|]. intros _. apply quietp_unlock_; [apply qbody_none|]. intros _. exact I.
-        * apply quietp_unlock_; [apply qbody_none|]. intros _. apply IH.
-        * apply quietp_unlock_; [apply qbody_none|]. intros _. apply quietp_unlock_; [apply qbody_none|]. intros _. exact I.
-    - apply quietp_unlock_; [apply qbody_none|]. intros _. exact I.
-  Qed.
-
-  Lemma quietp_pop hf lf : quietp (pop bsz hf lf).
-  Proof.
-    unfold pop. apply quietp_lock_.
-    - intros g. unfold body_pop_size. destruct (Z.eqb _ _); [reflexivity|]. destruct (brc_dec (ctr g)). reflexivity.
-    - intros v. destruct (vb v).
-      + apply quietp_unlock_; [apply qbody_none|]. intros _. exact I.
-      + destruct (Nat.eqb (vn v) 1).
-        * apply quietp_lock_; [intros g; reflexivity|]. intros w. apply quietp_unlock_; [apply qbody_none|]. intros _.
-          apply quietp_unlock_; [apply qbody_none|]. intros _. exact I.
-        * apply quietp_lock_; [apply qbody_none|]. intros _. apply quietp_lock_; [apply qbody_none|]. intros _.
-          apply quietp_unlock_; [intros g; reflexivity|]. intros w. apply quietp_unlock_.
-          -- intros g. unfold body_pop_top. destruct (tag_eqb _ _); reflexivity.
-          -- intros u. destruct (vb u).
-             ++ apply quietp_unlock_; [apply qbody_none|]. intros _. exact I.
-             ++ unfold obind. apply quietp_bind; [apply quietp_heapify_pop|]. intros [[]|]; exact I.
-  Qed.
-
-  (** *** client operations, step by step *)
-  Definition tidle : (tv * tv2) * pv := ((idle, idle2), idle3).
-  Definition wpush : pv := mkP false true [] None None NotLin.
+  (** *** client operations *)
+  Definition Qtop : bool -> (tv * tv2) * pv -> Prop := fun ok l' => ok = true -> l' = ((idle, idle2), idle3).
 
   Lemma tframe2 t a1 a1' (a2 a2' : Aux2) a3 a3' :
     (forall u, u <> t -> tvs a1' u = tvs a1 u) -> (forall u, u <> t -> a2' u = a2 u) -> (forall u, u <> t -> a3' u = a3 u) ->
     Conc.frame tview t ((a1, a2), a3) ((a1', a2'), a3').
   Proof. intros H1 H2 H3 u Hu. unfold tview, jview. cbn [fst snd]. rewrite H1, H2, H3 by exact Hu. reflexivity. Qed.
 
-  Lemma Ext_quiet g a1 a2 tr t es : forallb sn es = true -> Ext g a1 a2 tr -> Ext g a1 a2 (tr ++ Conc.tag t es).
+  Lemma Ext_more g a1 a2 tr es : Ext g a1 a2 tr -> Ext g a1 a2 (tr ++ es).
   Proof.
-    intros Hes (E1 & E2 & E3). split; [|split; [|exact E3]].
-    - intros u Hu. unfold Pq. rewrite (scan_neutral_app tr t es Hes). apply (E1 u Hu).
-    - unfold dq. rewrite (scan_neutral_app tr t es Hes). exact E2.
+    intros [E1 E2]. split.
+    - intros u Hu. apply pop_invoked_mono. apply (E1 u Hu).
+    - intros Hf. apply E2. apply (pop_invoked_mono_f _ _ Hf).
   Qed.
 
-  Lemma TInv_quiet g a tr t es :
-    forallb irrelevant es = true -> forallb sn es = true -> forallb quiet1 es = true -> TInv g a tr -> TInv g a (tr ++ Conc.tag t es).
+  Lemma trun_op_push hf lf t x : tsafe t (run_op cap bsz hf lf t (OPush x)) ((idle, idle2), idle3) Qtop.
   Proof.
-    intros H1 H2 H3 [[Hi He] Hx]. split; [split; [apply Inv_irrelevant; assumption|apply Ext_quiet; assumption]|apply PExt_idle; assumption].
-  Qed.
-
-  Lemma TInv_inv_push g a tr t x :
-    TInv g a tr -> tview a t = tidle ->
-    exists a', TInv g a' (tr ++ Conc.tag t [EvCli "inv_push" (zitem x)]) /\ Conc.frame tview t a a' /\
-               tview a' t = ((Vpush x, mkT2 None false), wpush).
-  Proof.
-    destruct a as [[a1 a2] a3]. intros [[Hi He] Hx] Hv. unfold tview, jview, tidle in Hv. cbn [fst snd] in *. inversion Hv as [[V1 V2 V3]].
+    cbn [run_op Conc.safe].
+    intros g [[a1 a2] a3] tr [[Hi He] Hx] Hv. unfold tview, jview in Hv. cbn [fst snd] in *. inversion Hv as [[V1 V2 V3]].
     pose proof (Inv_inv_push cap g a1 tr t idle x V1 eq_refl eq_refl eq_refl Hi) as H1.
     cbn [set_inop set_hand idle hs hand pstore pclear inop pfail] in H1. set (b1 := set_held _ _) in H1.
     assert (Hv1 : tvs b1 t = Vpush x) by (subst b1; cbn; rewrite Nat.eqb_refl; reflexivity).
     assert (Hoth1 : forall u, u <> t -> tvs b1 u = tvs a1 u) by (intros u Hu; subst b1; cbn; destruct (Nat.eqb_spec u t); congruence).
-    exists ((b1, a2), upd3 a3 t wpush). split; [split; [split; [exact H1|]|]|split].
-    - cbn [fst snd]. apply (Ext_same dq Pq HDq HPq g g a1 b1 a2 tr _ t); auto; rewrite ?Hv1; try reflexivity; try (intros _; reflexivity).
-    - cbn [fst snd]. apply (PExt_inv_push g a1 b1 a3 tr t (zitem x) Hoth1 Hx).
-    - apply tframe2; [exact Hoth1|intros; reflexivity|intros u Hu; apply upd3_other; exact Hu].
-    - unfold tview, jview. cbn [fst snd]. rewrite Hv1, V2, upd3_same. reflexivity.
+    set (w := mkP false true [] None None NotLin).
+    exists ((b1, a2), upd3 a3 t w). split; [split; [split; [exact H1|]|]|].
+    { cbn [fst snd]. apply (Ext_same g g a1 b1 a2 tr _ t); auto; rewrite ?Hv1; try reflexivity; try (intros _; reflexivity). }
+    { cbn [fst snd]. apply (PExt_inv_push g a1 b1 a3 tr t (zitem x) Hoth1 Hx). }
+    split; [apply tframe2; [exact Hoth1|intros; reflexivity|intros u Hu; apply upd3_other; exact Hu]|].
+    unfold tview, jview. cbn [fst snd]. rewrite Hv1, V2, upd3_same. apply Conc.safe_bind.
+    eapply Conc.safe_weaken; [|apply (lift_psh _ t _ _ w eq_refl (quietp_push hf lf t x) (jsafe_push cap OK SH bsz Hbsz hf lf t x))].
+    intros [[|]|] [[l1 l2] l3] [Hl Hl3]; cbn [fst snd] in *; subst l3; cbn [Conc.safe].
+    + destruct Hl as [E1 E2]. cbn [fst snd] in *. unfold Qpush in E1. subst l1 l2.
+      intros g2 [[c1 c2] c3] tr2 [[Hi2 He2] Hx2] Hv2. unfold tview, jview in Hv2. cbn [fst snd] in *. inversion Hv2 as [[W1 W2 W3]].
+      pose proof (Inv_ret cap g2 c1 tr2 t _ "ret_push" 1%Z x false W1 eq_refl eq_refl eq_refl eq_refl (or_introl eq_refl) eq_refl) as H2.
+      set (c1' := set_held (updv c1 t idle) (hdel t (held c1))).
+      assert (Hv1' : tvs c1' t = idle) by (subst c1'; cbn; rewrite Nat.eqb_refl; reflexivity).
+      assert (Hoth' : forall u, u <> t -> tvs c1' u = tvs c1 u) by (intros u Hu; subst c1'; cbn; destruct (Nat.eqb_spec u t); congruence).
+      exists ((c1', c2), upd3 c3 t idle3). split; [split; [split|]|split; [apply tframe2; [exact Hoth'|intros; reflexivity|intros u Hu; apply upd3_other; exact Hu]|]].
+      * apply H2; [destruct x; reflexivity|destruct x; discriminate|exact Hi2].
+      * cbn [fst snd]. apply (Ext_same g2 g2 c1 c1' c2 tr2 _ t); auto; rewrite ?Hv1'; try reflexivity. rewrite W2. cbn. intros [K|[K|K]]; congruence.
+      * cbn [fst snd]. apply (PExt_ret_push g2 c1 c1' c3 tr2 t _); [rewrite W3; reflexivity|exact Hoth'|rewrite Hv1'; reflexivity|exact Hx2].
+      * unfold tview, jview. cbn [fst snd]. rewrite Hv1', W2, upd3_same. intros _. reflexivity.
+    + destruct Hl as [E1 E2]. cbn [fst snd] in *. unfold Qpush in E1. subst l1 l2.
+      intros g2 [[c1 c2] c3] tr2 [[Hi2 He2] Hx2] Hv2. unfold tview, jview in Hv2. cbn [fst snd] in *. inversion Hv2 as [[W1 W2 W3]].
+      pose proof (Inv_ret cap g2 c1 tr2 t _ "ret_push" 0%Z x true W1 eq_refl eq_refl eq_refl eq_refl (or_introl eq_refl) eq_refl) as H2.
+      set (c1' := set_held (updv c1 t idle) (hdel t (held c1))).
+      assert (Hv1' : tvs c1' t = idle) by (subst c1'; cbn; rewrite Nat.eqb_refl; reflexivity).
+      assert (Hoth' : forall u, u <> t -> tvs c1' u = tvs c1 u) by (intros u Hu; subst c1'; cbn; destruct (Nat.eqb_spec u t); congruence).
+      exists ((c1', c2), upd3 c3 t idle3). split; [split; [split|]|split; [apply tframe2; [exact Hoth'|intros; reflexivity|intros u Hu; apply upd3_other; exact Hu]|]].
+      * apply H2; [destruct x; reflexivity|reflexivity|exact Hi2].
+      * cbn [fst snd]. apply (Ext_same g2 g2 c1 c1' c2 tr2 _ t); auto; rewrite ?Hv1'; try reflexivity. rewrite W2. cbn. intros [K|[K|K]]; congruence.
+      * cbn [fst snd]. apply (PExt_ret_push g2 c1 c1' c3 tr2 t _); [rewrite W3; reflexivity|exact Hoth'|rewrite Hv1'; reflexivity|exact Hx2].
+      * unfold tview, jview. cbn [fst snd]. rewrite Hv1', W2, upd3_same. intros _. reflexivity.
+    + intros g2 [[c1 c2] c3] tr2 [[Hi2 He2] Hx2] Hv2. unfold tview, jview in Hv2. cbn [fst snd] in *. inversion Hv2 as [[W1 W2 W3]].
+      exists ((c1, c2), c3). split; [split; [split; [apply Inv_irrelevant; [reflexivity|exact Hi2]|]|]|].
+      * cbn [fst snd]. apply Ext_more. exact He2.
+      * cbn [fst snd]. apply (PExt_push g2 g2 c1 c1 c3 tr2 t _); [rewrite W3; reflexivity|reflexivity|intros; reflexivity|exact Hx2].
+      * split; [intros u Hu; reflexivity|]. intros E. discriminate.
   Qed.
 
-  Lemma tpush_body hf lf t x :
-    tsafe t (push cap bsz hf lf t x) ((Vpush x, mkT2 None false), wpush) (fun r l' => optQ2 (Qjpush x) r (fst l') /\ snd l' = wpush).
-  Proof. apply (lift_psh _ t _ _ wpush eq_refl (quietp_push hf lf t x) (jsafe_push cap OK SH bsz Hbsz dq Pq HDq HPq hf lf t x)). Qed.
+  (** what a pop does after its invocation event *)
+  Definition pop_cont (hf lf : nat) : MsPq.prog bool :=
+    Conc.bind (pop bsz hf lf) (fun r =>
+      match r with
+      | Some (Some x) => Emit [EvCli "ret_pop" (1%Z :: zitem x)] (Ret true)
+      | Some None => Emit [EvCli "ret_pop" [0; 0; 0]%Z] (Ret true)
+      | None => Emit [EvCli "stopped" []] (Ret false)
+      end).
+  Lemma run_op_pop hf lf t : run_op cap bsz hf lf t OPop = Emit [EvCli "inv_pop" []] (pop_cont hf lf).
+  Proof. reflexivity. Qed.
 
-  Lemma TInv_ret_push g a tr t x (b : bool) :
-    TInv g a tr -> Qjpush x b (fst (tview a t)) -> snd (tview a t) = wpush ->
-    (dp (tr ++ Conc.tag t [EvCli "ret_push" ((if b then 1 else 0)%Z :: zitem x)]) = false ->
-     spec_quiescent g (tr ++ Conc.tag t [EvCli "ret_push" ((if b then 1 else 0)%Z :: zitem x)])) ->
-    exists a', TInv g a' (tr ++ Conc.tag t [EvCli "ret_push" ((if b then 1 else 0)%Z :: zitem x)]) /\ Conc.frame tview t a a' /\ tview a' t = tidle.
+  Lemma tpop_cont hf lf t : tsafe t (pop_cont hf lf) (PV Vpop Vstart) Qtop.
   Proof.
-    destruct a as [[c1 c2] c3]. intros [[Hi2 He2] Hx2] [E1 E2] W3 Hfirst. unfold tview, jview in *. cbn [fst snd] in *. unfold Qpush in E1.
-    set (c1' := set_held (updv c1 t idle) (hdel t (held c1))).
-    assert (Hv1' : tvs c1' t = idle) by (subst c1'; cbn; rewrite Nat.eqb_refl; reflexivity).
-    assert (Hoth' : forall u, u <> t -> tvs c1' u = tvs c1 u) by (intros u Hu; subst c1'; cbn; destruct (Nat.eqb_spec u t); congruence).
-    assert (Hi' : Inv g c1' (tr ++ Conc.tag t [EvCli "ret_push" ((if b then 1 else 0)%Z :: zitem x)])).
-    { destruct b.
-      - pose proof (Inv_ret cap g c1 tr t _ "ret_push" 1%Z x false E1 eq_refl eq_refl eq_refl eq_refl (or_introl eq_refl) eq_refl) as H2.
-        apply H2; [destruct x; reflexivity|destruct x; discriminate|exact Hi2].
-      - pose proof (Inv_ret cap g c1 tr t _ "ret_push" 0%Z x true E1 eq_refl eq_refl eq_refl eq_refl (or_introl eq_refl) eq_refl) as H2.
-        apply H2; [destruct x; reflexivity|reflexivity|exact Hi2]. }
-    assert (He' : Ext g c1' c2 (tr ++ Conc.tag t [EvCli "ret_push" ((if b then 1 else 0)%Z :: zitem x)])).
-    { apply (Ext_same dq Pq HDq HPq g g c1 c1' c2 tr _ t); auto; rewrite ?Hv1'; try reflexivity. rewrite E2. cbn. intros [K|[K|K]]; congruence. }
-    exists ((c1', c2), upd3 c3 t idle3). split; [split; [split; [exact Hi'|exact He']|]|split].
-    - cbn [fst snd]. apply (PExt_ret_push g c1 c1' c2 c3 tr t _ W3 Hoth' Hv1' Hi' He' Hfirst Hx2).
-    - apply tframe2; [exact Hoth'|intros; reflexivity|intros u Hu; apply upd3_other; exact Hu].
-    - unfold tview, jview, tidle. cbn [fst snd]. rewrite Hv1', E2, upd3_same. reflexivity.
+    unfold pop_cont. apply Conc.safe_bind. eapply Conc.safe_weaken; [|apply (tsafe_pop hf lf t)].
+    intros [[x|]|] l Hl; cbn [optQ3] in Hl; cbn [Conc.safe].
+    + unfold Qtpop in Hl. subst l. intros g2 [[c1 c2] c3] tr2 [[Hi2 He2] Hx2] Hv2. unfold tview, jview, PV in Hv2. cbn [fst snd] in *. inversion Hv2 as [[W1 W2 W3]].
+      pose proof (Inv_ret cap g2 c1 tr2 t _ "ret_pop" 1%Z x true W1 eq_refl eq_refl eq_refl eq_refl (or_intror eq_refl) eq_refl) as H2.
+      assert (Hp2 : pop_invoked tr2 = true) by (apply (proj1 He2 t); rewrite W2; reflexivity).
+      set (c1' := set_held (updv c1 t idle) (hdel t (held c1))).
+      assert (Hv1' : tvs c1' t = idle) by (subst c1'; cbn; rewrite Nat.eqb_refl; reflexivity).
+      assert (Hoth' : forall u, u <> t -> tvs c1' u = tvs c1 u) by (intros u Hu; subst c1'; cbn; destruct (Nat.eqb_spec u t); congruence).
+      exists ((c1', upd2 c2 t idle2), upd3 c3 t idle3). split; [split; [split|]|split].
+      * apply H2; [destruct x; reflexivity|destruct x; discriminate|exact Hi2].
+      * apply Ext_dead. apply pop_invoked_mono. exact Hp2.
+      * cbn [fst snd]. apply (PExt_ret_pop g2 c1 c1' c3 tr2 t _ (Some (prio x)) W3 Hoth' Hv1'); [destruct x; reflexivity|rewrite W1; reflexivity|exact Hx2].
+      * apply tframe2; [exact Hoth'|intros u Hu; apply upd2_other; exact Hu|intros u Hu; apply upd3_other; exact Hu].
+      * unfold tview, jview. cbn [fst snd]. rewrite Hv1', upd2_same, upd3_same. intros _. reflexivity.
+    + unfold Qtpop in Hl. subst l. intros g2 [[c1 c2] c3] tr2 [[Hi2 He2] Hx2] Hv2. unfold tview, jview, PV in Hv2. cbn [fst snd] in *. inversion Hv2 as [[W1 W2 W3]].
+      pose proof (Inv_ret cap g2 c1 tr2 t _ "ret_pop" 0%Z (0%Z, 0%Z) false W1 eq_refl eq_refl eq_refl eq_refl (or_intror eq_refl) eq_refl) as H2.
+      assert (Hp2 : pop_invoked tr2 = true) by (apply (proj1 He2 t); rewrite W2; reflexivity).
+      set (c1' := set_held (updv c1 t idle) (hdel t (held c1))).
+      assert (Hv1' : tvs c1' t = idle) by (subst c1'; cbn; rewrite Nat.eqb_refl; reflexivity).
+      assert (Hoth' : forall u, u <> t -> tvs c1' u = tvs c1 u) by (intros u Hu; subst c1'; cbn; destruct (Nat.eqb_spec u t); congruence).
+      exists ((c1', upd2 c2 t idle2), upd3 c3 t idle3). split; [split; [split|]|split].
+      * apply H2; [reflexivity|discriminate|exact Hi2].
+      * apply Ext_dead. apply pop_invoked_mono. exact Hp2.
+      * cbn [fst snd]. apply (PExt_ret_pop g2 c1 c1' c3 tr2 t _ None W3 Hoth' Hv1'); [reflexivity|rewrite W1; reflexivity|exact Hx2].
+      * apply tframe2; [exact Hoth'|intros u Hu; apply upd2_other; exact Hu|intros u Hu; apply upd3_other; exact Hu].
+      * unfold tview, jview. cbn [fst snd]. rewrite Hv1', upd2_same, upd3_same. intros _. reflexivity.
+    + intros g2 [[c1 c2] c3] tr2 [[Hi2 He2] Hx2] Hv2. exists ((c1, c2), c3). cbn [fst snd] in *.
+      split; [split; [split; [apply Inv_irrelevant; [reflexivity|exact Hi2]|apply Ext_more; exact He2]|]|].
+      * cbn [fst snd]. apply PExt_idle; [reflexivity|reflexivity|exact Hx2].
+      * split; [intros u Hu; reflexivity|]. intros E. discriminate.
   Qed.
 
-  Lemma TInv_stopped_push g a tr t :
-    TInv g a tr -> psh (snd (tview a t)) = true -> TInv g a (tr ++ Conc.tag t [EvCli "stopped" []]).
+  (** the invocation of a pop, given what the push phase established about the specification state *)
+  Lemma TInv_inv_pop g a1 a2 a3 tr t :
+    TInv g ((a1, a2), a3) tr -> tview ((a1, a2), a3) t = ((idle, idle2), idle3) ->
+    (seen (scan_of tr) = false -> (forall u, pend tr u = false) ->
+       exists (s : list Z) (stt : nat -> status Sp), lp_run lp_init (atrace cap tr) = Some (s, stt) /\ List.length s = count g /\
+         (forall u, stt u = Lin.Idle) /\ Permutation s (prios cap (cellv g))) ->
+    exists a', TInv g a' (tr ++ Conc.tag t [EvCli "inv_pop" []]) /\ Conc.frame tview t ((a1, a2), a3) a' /\ tview a' t = PV Vpop Vstart.
   Proof.
-    destruct a as [[c1 c2] c3]. intros [[Hi2 He2] Hx2] W3. unfold tview in W3. cbn [fst snd] in *.
-    split; [split; [apply Inv_irrelevant; [reflexivity|exact Hi2]|apply Ext_quiet; [reflexivity|exact He2]]|].
-    cbn [fst snd]. apply (PExt_push g g c1 c1 c3 tr t _); [exact W3|reflexivity|intros; reflexivity|exact Hx2].
-  Qed.
-
-  Lemma TInv_inv_pop g a tr t :
-    TInv g a tr -> tview a t = tidle ->
-    exists a', TInv g a' (tr ++ Conc.tag t [EvCli "inv_pop" []]) /\ Conc.frame tview t a a' /\ tview a' t = PV Vpop Vstart.
-  Proof.
-    destruct a as [[a1 a2] a3]. intros [[Hi He] Hx] Hv. unfold tview, jview, tidle in Hv. cbn [fst snd] in *. inversion Hv as [[V1 V2 V3]].
+    intros [[Hi He] Hx] Hv Hfirst. unfold tview, jview in Hv. cbn [fst snd] in *. inversion Hv as [[V1 V2 V3]].
     pose proof (Inv_inv_pop cap g a1 tr t idle V1 eq_refl eq_refl Hi) as H1.
     cbn [set_inop idle hs hand pstore pclear inop pfail] in H1.
     set (b1 := updv a1 t (mkTv false None None None true false)) in *.
     set (b2 := upd2 a2 t (mkT2 None true)).
-    assert (Hoth1 : forall u, u <> t -> tvs b1 u = tvs a1 u) by (intros u Hu; apply tvs_updv_other; exact Hu).
-    exists ((b1, b2), upd3 a3 t Vstart). split; [split; [split; [exact H1|]|]|split].
-    - cbn [fst snd]. apply (Ext_inv_pop g a1 b1 a2 tr t V2 Hoth1 He).
-    - cbn [fst snd]. apply (PExt_inv_pop g a1 b1 a3 tr t V3 Hoth1); [| |exact Hx]; unfold b1; rewrite tvs_updv_same; reflexivity.
-    - apply tframe2; [exact Hoth1|intros u Hu; apply upd2_other; exact Hu|intros u Hu; apply upd3_other; exact Hu].
+    assert (Hpi : pop_invoked (tr ++ Conc.tag t [EvCli "inv_pop" []]) = true) by (rewrite pop_invoked_app; cbn; apply orb_true_r).
+    exists ((b1, b2), upd3 a3 t Vstart). split; [split; [split; [exact H1|apply Ext_dead; exact Hpi]|]|split].
+    - cbn [fst snd]. apply (PExt_inv_pop g a1 b1 a2 a3 tr t Hi He V3); [intros u Hu; apply tvs_updv_other; exact Hu| | |exact Hfirst|exact Hx]; unfold b1; rewrite tvs_updv_same; reflexivity.
+    - apply tframe2; [intros u Hu; apply tvs_updv_other; exact Hu|intros u Hu; apply upd2_other; exact Hu|intros u Hu; apply upd3_other; exact Hu].
     - unfold tview, jview, PV. cbn [fst snd]. unfold b1, b2. rewrite tvs_updv_same, upd2_same, upd3_same. reflexivity.
   Qed.
 
-  Definition ret_pop_args (r : option item) : list Z := match r with Some x => 1%Z :: zitem x | None => [0; 0; 0]%Z end.
-
-  Lemma TInv_ret_pop g a tr t (r : option item) :
-    TInv g a tr -> tview a t = PV (mkTv false r None None true false) Vdone ->
-    exists a', TInv g a' (tr ++ Conc.tag t [EvCli "ret_pop" (ret_pop_args r)]) /\ Conc.frame tview t a a' /\ tview a' t = tidle.
+  Lemma tbegin g a tr t es : forallb irrelevant es = true -> forallb sn es = true -> forallb quiet1 es = true -> TInv g a tr -> TInv g a (tr ++ Conc.tag t es).
   Proof.
-    destruct a as [[c1 c2] c3]. intros [[Hi2 He2] Hx2] Hv2. unfold tview, jview, PV in Hv2. cbn [fst snd] in *. inversion Hv2 as [[W1 W2 W3]].
-    set (c1' := set_held (updv c1 t idle) (hdel t (held c1))).
-    assert (Hv1' : tvs c1' t = idle) by (subst c1'; cbn; rewrite Nat.eqb_refl; reflexivity).
-    assert (Hoth' : forall u, u <> t -> tvs c1' u = tvs c1 u) by (intros u Hu; subst c1'; cbn; destruct (Nat.eqb_spec u t); congruence).
-    assert (Hi' : Inv g c1' (tr ++ Conc.tag t [EvCli "ret_pop" (ret_pop_args r)])).
-    { destruct r as [x|]; cbn [ret_pop_args].
-      - pose proof (Inv_ret cap g c1 tr t _ "ret_pop" 1%Z x true W1 eq_refl eq_refl eq_refl eq_refl (or_intror eq_refl) eq_refl) as H2.
-        apply H2; [destruct x; reflexivity|destruct x; discriminate|exact Hi2].
-      - pose proof (Inv_ret cap g c1 tr t _ "ret_pop" 0%Z (0%Z, 0%Z) false W1 eq_refl eq_refl eq_refl eq_refl (or_intror eq_refl) eq_refl) as H2.
-        apply H2; [reflexivity|discriminate|exact Hi2]. }
-    assert (Hx' : PExt g c1' (upd3 c3 t idle3) (tr ++ Conc.tag t [EvCli "ret_pop" (ret_pop_args r)])).
-    { apply (PExt_ret_pop g c1 c1' c3 tr t _ (option_map prio r) W3 Hoth' Hv1'); [destruct r as [[p i]|]; reflexivity|rewrite W1; reflexivity|exact Hx2]. }
-    exists ((c1', upd2 c2 t idle2), upd3 c3 t idle3). split; [split; [split; [exact Hi'|]|exact Hx']|split].
-    - cbn [fst snd]. apply (Ext_ret_pop g c1 c1' c2 _ tr t _ W2 Hoth' ltac:(rewrite Hv1'; reflexivity) Hi' Hx' He2).
-    - apply tframe2; [exact Hoth'|intros u Hu; apply upd2_other; exact Hu|intros u Hu; apply upd3_other; exact Hu].
-    - unfold tview, jview, tidle. cbn [fst snd]. rewrite Hv1', upd2_same, upd3_same. reflexivity.
-  Qed.
-
-  (** at a quiescent point of a disciplined run the specification state is known *)
-  Lemma quiescent_spec g a tr :
-    TInv g a tr -> dq tr = false -> dp tr = false -> spec_quiescent g tr /\ (forall u, pend tr u = false).
-  Proof.
-    destruct a as [[a1 a2] a3]. intros [[Hi He] (U1 & U3 & U4 & U6 & U5)] Hq Hp. cbn [fst snd] in *.
-    destruct (U5 Hp) as [F (s & stt & oS & o1 & Hrun & Hlen & Hst & HS & H1 & Hcov & HM)].
-    unfold dq in Hq. apply orb_false_iff in Hq. destruct Hq as [Hbad Hqq]. unfold dp in Hp. apply orb_false_iff in Hp. destruct Hp as [_ Hpp].
-    assert (Eq : qq (scan_of tr) = []) by (destruct (qq (scan_of tr)); [reflexivity|discriminate]).
-    assert (Ep : pp (scan_of tr) = []) by (destruct (pp (scan_of tr)); [reflexivity|discriminate]).
-    assert (Hpin : forall u, pin (a3 u) = false) by (intros u; destruct (pin (a3 u)) eqn:E; [pose proof (U3 u E) as K; rewrite Eq in K; destruct K|reflexivity]).
-    assert (Hidle : forall u, inop (tvs a1 u) = false).
-    { intros u. destruct (inop (tvs a1 u)) eqn:E; [|reflexivity]. destruct (U4 u E) as [K|K]; [pose proof (U1 u K) as K'; rewrite Ep in K'; destruct K'|rewrite Hpin in K; discriminate]. }
-    assert (EoS : oS = None) by (destruct oS as [[u r]|]; [destruct (HS u r eq_refl) as (_ & A2 & _); rewrite Hpin in A2; discriminate|reflexivity]).
-    assert (Eo1 : o1 = None) by (destruct o1 as [[u r]|]; [destruct (H1 u r eq_refl) as (_ & A2 & _); rewrite Hpin in A2; discriminate|reflexivity]).
-    subst oS o1. cbn in HM. rewrite !app_nil_r in HM. split.
-    - exists s, stt. split; [exact Hrun|]. split; [exact Hlen|]. split.
-      + intros u. specialize (Hst u). unfold stat3 in Hst. rewrite Hpin in Hst. exact Hst.
-      + pose proof (Inv_quiescent_perm g a1 tr Hi Hidle) as HP. apply (Permutation_map prio) in HP. rewrite map_app in HP.
-        rewrite <- HP. apply Permutation_app_tail. exact HM.
-    - intros u. rewrite (iP _ _ _ _ Hi u). apply Hidle.
-  Qed.
-
-  Lemma PF_init a1 a3 : (forall t, tvs a1 t = idle) -> (forall t, a3 t = idle3) -> PopFacts init a1 a3.
-  Proof.
-    intros H1 H3. constructor.
-    - intros t l Hl. rewrite H3 in Hl. destruct Hl.
-    - intros t t' l Hl. rewrite H3 in Hl. destruct Hl.
-    - intros i u. cbn. discriminate.
-    - intros t d Hd. rewrite H3 in Hd. discriminate.
-    - intros k j x _ Hx. discriminate.
-    - intros t. rewrite H1. reflexivity.
-    - intros t p ch Hd. rewrite H3 in Hd. discriminate.
-    - intros t Hp. rewrite H3 in Hp. discriminate.
-    - intros t _. rewrite H3, H1. repeat split.
-  Qed.
-
-  Lemma prios_empty h : (forall i, h i = None) -> prios cap h = [].
-  Proof.
-    intros H. unfold prios, items. induction (seq 1 cap) as [|i l IH]; [reflexivity|]. cbn [flat_map]. rewrite H. cbn. exact IH.
+    intros H1 H2 H3 [[Hi He] Hx]. split; [split; [apply Inv_irrelevant; assumption|apply Ext_more; exact He]|apply PExt_idle; assumption].
   Qed.
 
   Lemma tinit : TInv init ((mkA (fun _ => idle) [], fun _ => idle2), fun _ => idle3) [].
   Proof.
     split; [split; [apply Inv_init|]|]; cbn [fst snd].
-    - split; [intros t H; discriminate|]. split; [|intros t H; cbn in H; congruence]. intros _. split; [|split; [|split]].
+    - split; [intros t H; discriminate|]. intros _. split; [|split; [|split]].
       + intros i t. cbn. split; discriminate.
       + intros k j x y _ _ Hx. discriminate.
       + intros t. reflexivity.
       + intros t [H|[H|H]]; cbn in H; congruence.
-    - unfold PExt. split; [intros t H; discriminate|]. split; [intros t H; discriminate|]. split; [intros t H; discriminate|].
-      split; [intros t _; repeat split|]. intros _. split; [apply PF_init; reflexivity|].
-      apply (PL_quiescent init _ _ [] [] (fun _ => Lin.Idle)); try reflexivity. rewrite prios_empty; [reflexivity|reflexivity].
+    - unfold PExt. cbn. repeat split; intros; try discriminate; auto.
   Qed.
 End Pop.
